@@ -39,12 +39,31 @@ _PURE_BUILTINS = {'all': all, 'any': any, 'sum': sum, 'sorted': sorted, 'tuple':
                   'set': set, 'frozenset': frozenset, 'map': lambda f, *s: list(map(f, *s)),
                   'filter': lambda f, s: list(filter(f, s)), 'bool': bool, 'len': len,
                   'enumerate': lambda s, start=0: list(enumerate(s, start)),
+                  'iter': iter, 'next': next, 'dict': dict, 'callable': callable, 'str': str, 'repr': repr,
+                  'min': min, 'max': max, 'abs': abs,
                   'range': lambda *a: list(range(*a)) if all(isinstance(x, int) and abs(x) < 1000 for x in a)
                   else (_ for _ in ()).throw(TypeError('range'))}
 _PURE_DOTTED = {'functools.reduce': _functools.reduce, 'reduce': _functools.reduce}
 for _n in ('xor', 'and_', 'or_', 'not_', 'truth', 'add', 'sub', 'mul', 'mod', 'eq', 'ne', 'lt', 'le',
            'gt', 'ge', 'is_', 'is_not', 'neg', 'contains'):
     _PURE_DOTTED[f'operator.{_n}'] = getattr(_operator, _n)
+_NOBASE = object()
+_CONTAINER_METHODS_OF = {
+    'set': {'add', 'discard', 'remove', 'update', 'union', 'intersection', 'difference', 'copy', 'clear',
+            'pop', 'issubset', 'issuperset', 'isdisjoint', 'symmetric_difference', 'difference_update',
+            'intersection_update'},
+    'frozenset': {'union', 'intersection', 'difference', 'copy', 'issubset', 'issuperset', 'isdisjoint',
+                  'symmetric_difference'},
+    'dict': {'get', 'items', 'keys', 'values', 'setdefault', 'update', 'pop', 'copy', 'clear', 'popitem'},
+    'list': {'append', 'extend', 'insert', 'pop', 'remove', 'index', 'count', 'copy', 'sort', 'reverse',
+             'clear'},
+    'tuple': {'index', 'count'},
+    'str': {'split', 'rsplit', 'strip', 'lstrip', 'rstrip', 'lower', 'upper', 'startswith', 'endswith',
+            'replace', 'join', 'partition', 'rpartition', 'isdigit', 'isidentifier', 'removeprefix',
+            'removesuffix', 'find', 'count', 'splitlines', 'isupper', 'islower', 'isalpha', 'title',
+            'capitalize', 'casefold', 'zfill'},
+}
+_CONTAINER_METHODS = set().union(*_CONTAINER_METHODS_OF.values())
 _BITOPS = {ast.BitXor: _operator.xor, ast.BitAnd: _operator.and_, ast.BitOr: _operator.or_}
 
 
@@ -133,6 +152,8 @@ class MiniEval:
                 return _BITOPS[type(e.op)](l, r)
             except TypeError:
                 raise _Fault('TypeError') from None
+        if isinstance(e, ast.Attribute) and e.attr == '__func__':
+            return self.ev(e.value)         # the function wrapped by a staticmethod / bound method
         if isinstance(e, ast.Lambda):
             return self._closure(e.args, [ast.Return(value=e.body)], bound_method=False)
         if isinstance(e, (ast.Name, ast.Attribute)) and norm(e) not in self.env:
@@ -343,6 +364,10 @@ class MiniEval:
                 fn_ = self.ev(e.func)
             elif isinstance(e.func, (ast.Name, ast.Attribute)):
                 fn_ = self._pure_callable(e.func)
+            elif isinstance(e.func, (ast.IfExp, ast.Subscript, ast.BoolOp)):
+                fn_ = self.ev(e.func)
+                if not callable(fn_):
+                    raise _Fault('TypeError')
             if fn_ is not None:
                 args_ = []
                 for a in e.args:
@@ -361,6 +386,26 @@ class MiniEval:
                     raise
                 except Exception as exc:
                     raise _Fault(type(exc).__name__) from None
+        if isinstance(e, ast.Call) and isinstance(e.func, ast.Attribute) and not e.keywords and \
+                e.func.attr in _CONTAINER_METHODS:
+            try:
+                base = self.ev(e.func.value)
+            except AnalysisError:
+                base = _NOBASE
+            if isinstance(base, (list, dict, set, frozenset, tuple)) or \
+                    (isinstance(base, str) and not isinstance(base, Sym)):
+                if e.func.attr not in _CONTAINER_METHODS_OF[type(base).__name__ if not isinstance(base, str) else 'str']:
+                    raise _Fault('AttributeError')
+                args_, _ = self._call_args(e)
+                if any(isinstance(a, (Sym, Term)) for a in args_) and isinstance(base, str):
+                    self.fail(e, '(string method on a symbolic operand)')
+                try:
+                    out_ = getattr(base, e.func.attr)(*args_)
+                except Exception as exc:
+                    raise _Fault(type(exc).__name__) from None
+                if type(out_).__name__ in ('dict_items', 'dict_keys', 'dict_values'):
+                    out_ = list(out_)
+                return out_
         if isinstance(e, ast.Call) and isinstance(e.func, ast.Attribute) and not e.keywords and \
                 e.func.attr in ('replace', 'strip', 'lower', 'upper', 'startswith', 'endswith'):
             base = self.ev(e.func.value)
@@ -381,7 +426,7 @@ class MiniEval:
                 return isinstance(v, tuple(types))
             if e.func.id == 'len' and len(e.args) == 1:
                 v = self.ev(e.args[0])
-                if not isinstance(v, (tuple, list, str)):
+                if not isinstance(v, (tuple, list, str, set, frozenset, dict)):
                     raise _Fault('TypeError')
                 return len(v)
             if e.func.id == 'bool' and len(e.args) == 1:
@@ -456,26 +501,72 @@ class MiniEval:
                 return self._closure(fn.args, fn.body, bound_method=isinstance(f, ast.Attribute))
         return None
 
-    def _closure(self, args, body, bound_method):
-        if args.vararg or args.kwarg or args.kwonlyargs:
+    def _closure(self, args, body, bound_method, receiver=None):
+        if args.kwarg or args.kwonlyargs:
             return None
         params = [a.arg for a in args.posonlyargs + args.args]
+        recv_name = None
         if bound_method and params and params[0] in ('self', 'cls'):
+            recv_name = params[0]
             params = params[1:]
         defaults = list(args.defaults)
+        vararg = args.vararg.arg if args.vararg else None
         outer = self
 
         def call(*vals):
-            if len(vals) > len(params) or len(vals) < len(params) - len(defaults):
+            if (len(vals) > len(params) and vararg is None) or len(vals) < len(params) - len(defaults):
                 raise _Fault('TypeError')
             child_env = dict(outer.env)
+            if recv_name is not None:
+                child_env[recv_name] = receiver if receiver is not None else outer.env.get('self', outer.env.get('cls'))
             for p_, v_ in zip(params, vals):
                 child_env[p_] = v_
+            if vararg is not None:
+                child_env[vararg] = tuple(vals[len(params):])
             for p_, d_ in zip(params[len(params) - len(defaults):], defaults):
                 if params.index(p_) >= len(vals):
                     child_env[p_] = outer.ev(d_)
             child = MiniEval(outer.rule, child_env, outer.resolve, outer.depth + 1)
             out = child.run(body)
+            for k, v in child.env.items():          # attribute writes are visible to the caller
+                if not k.isidentifier():
+                    outer.env[k] = v
+            if out[0] == 'return':
+                return out[1]
+            if out[0] == 'raise':
+                raise _Raised(out[1])
+            raise _Fault(out[1])
+        return call
+
+    def _closure_live(self, fdef):
+        """A local `def`: free variables are looked up in the defining evaluator's environment at
+        call time (late binding, as Python does) and item / attribute stores are shared."""
+        if fdef.args.kwarg or fdef.args.kwonlyargs or fdef.args.vararg:
+            return None
+        params = [a.arg for a in fdef.args.posonlyargs + fdef.args.args]
+        defaults = list(fdef.args.defaults)
+        outer = self
+
+        def call(*vals, **kws):
+            if len(vals) > len(params):
+                raise _Fault('TypeError')
+            bound = dict(zip(params, vals))
+            for k, v in kws.items():
+                if k in bound or k not in params:
+                    raise _Fault('TypeError')
+                bound[k] = v
+            for p_, d_ in zip(params[len(params) - len(defaults):], defaults):
+                if p_ not in bound:
+                    bound[p_] = outer.ev(d_)
+            if len(bound) != len(params):
+                raise _Fault('TypeError')
+            child_env = dict(outer.env)
+            child_env.update(bound)
+            child = MiniEval(outer.rule, child_env, outer.resolve, outer.depth + 1)
+            out = child.run(fdef.body)
+            for k, v in child.env.items():
+                if not k.isidentifier():
+                    outer.env[k] = v
             if out[0] == 'return':
                 return out[1]
             if out[0] == 'raise':
@@ -536,6 +627,11 @@ class MiniEval:
             elif isinstance(st, ast.Expr) and isinstance(st.value, (ast.Call, ast.Await)) is True and \
                     isinstance(st.value, ast.Call):
                 self.ev(st.value)           # a call for its effect (environment object / helper)
+            elif isinstance(st, ast.FunctionDef) and not st.decorator_list:
+                fn_ = self._closure_live(st)
+                if fn_ is None:
+                    self.fail(st, '(local function with an unsupported signature)')
+                self.env[st.name] = fn_
             elif isinstance(st, ast.Raise):
                 exc = st.exc
                 name = None
